@@ -33,6 +33,9 @@ type ConcOp struct {
 }
 
 type C04Case struct {
+	// Scribble: every caller overwrites the result it received (after keeping a private copy
+	// for the oracle): results must not share memory with the index or with other callers
+	Scribble bool       `json:"scribble,omitempty"`
 	Mode     string     `json:"mode"` // index | lru | grpc
 	Data     Dataset    `json:"data"`
 	Writer   string     `json:"writer"`
@@ -67,6 +70,7 @@ func genC04(c *Ctx) any {
 		nt = r.Range(2, maxTasks)
 	}
 	cs.Sched = genSched(c.Rand("sched"), 3000)
+	cs.Scribble = cs.Mode == "index" && r.Chance(1, 4)
 	if cs.Mode == "lru" {
 		cs.LRUBytes = []uint64{0, 200, 600, 3000, 1 << 20}[r.Intn(5)]
 		nkeys := r.Range(1, 5)
@@ -155,6 +159,57 @@ type opOut struct {
 	panicky string
 }
 
+// cloneAndScribble*: keep a private deep copy for the oracle, then overwrite what the library
+// handed out. norace: if the library shares the memory with other callers, the verdict is
+// the wrong answer they get, not a race report between two harness frames.
+//
+//go:norace
+func cloneAndScribbleSchema(s *updog.Schema) *updog.Schema {
+	if s == nil {
+		return nil
+	}
+	c := &updog.Schema{}
+	for _, col := range s.Columns {
+		cc := updog.SchemaColumn{Name: col.Name}
+		cc.Values = append(cc.Values, col.Values...)
+		c.Columns = append(c.Columns, cc)
+	}
+	for i := range s.Columns {
+		for j := range s.Columns[i].Values {
+			s.Columns[i].Values[j].Value = "scribbled"
+		}
+		s.Columns[i].Name = "scribbled"
+		if len(s.Columns[i].Values) > 0 {
+			s.Columns[i].Values = s.Columns[i].Values[:len(s.Columns[i].Values)-1]
+		}
+	}
+	if len(s.Columns) > 1 {
+		s.Columns[0], s.Columns[len(s.Columns)-1] = s.Columns[len(s.Columns)-1], s.Columns[0]
+	}
+	return c
+}
+
+//go:norace
+func cloneAndScribbleResult(r *updog.Result) *updog.Result {
+	if r == nil {
+		return nil
+	}
+	c := &updog.Result{Count: r.Count}
+	for _, g := range r.Groups {
+		cg := updog.ResultGroup{Count: g.Count}
+		cg.Fields = append(cg.Fields, g.Fields...)
+		c.Groups = append(c.Groups, cg)
+	}
+	for i := range r.Groups {
+		for j := range r.Groups[i].Fields {
+			r.Groups[i].Fields[j] = updog.ResultField{Column: "scribbled", Value: "scribbled"}
+		}
+		r.Groups[i].Count = 0
+	}
+	r.Count = 0
+	return c
+}
+
 type promLikeHist struct{ n ctr }
 
 func (h *promLikeHist) Observe(float64) { h.n.Inc() }
@@ -241,8 +296,14 @@ func runC04(c *Ctx, body json.RawMessage) *Verdict {
 						switch op.Kind {
 						case "exec":
 							o.res, o.err = idx.Execute(uqs[t][i])
+							if cs.Scribble {
+								o.res = cloneAndScribbleResult(o.res)
+							}
 						case "schema":
 							o.schema = idx.GetSchema()
+							if cs.Scribble {
+								o.schema = cloneAndScribbleSchema(o.schema)
+							}
 						case "rpc":
 							ctx := context.Background()
 							if op.Cancelled {
@@ -269,6 +330,9 @@ func runC04(c *Ctx, body json.RawMessage) *Verdict {
 	applySim(v, res)
 	v.StateKey = simrt.Hash3(simrt.HashStr(cs.Mode+cs.Open.Class()+cs.Sched.Strategy), uint64(len(cs.Tasks)), uint64(res.Switches))
 	v.NonTrivial = len(cs.Tasks) >= 2 && res.Switches >= 2
+	if cs.Scribble {
+		v.Count("probe_callers_overwrite_their_results", 1)
+	}
 	if res.Hang || res.Deadlock {
 		v.Fatal = true
 		return v.Violate("hang", "tasks never finished (hang=%v deadlock=%v)\n%s", res.Hang, res.Deadlock, trimStacks(res.Stacks))
@@ -552,7 +616,8 @@ func runC04LRU(c *Ctx, cs *C04Case, v *Verdict) *Verdict {
 // ------------------------------------------------------------------- C18
 
 type C18Case struct {
-	Writer string   `json:"writer"` // mem | big
+	Writer  string `json:"writer"`            // mem | big
+	Writer2 string `json:"writer2,omitempty"` // a second writer instance used by the odd tasks
 	Tasks  [][]Row  `json:"tasks"`
 	Sched  SchedCfg `json:"sched"`
 }
@@ -560,6 +625,9 @@ type C18Case struct {
 func genC18(c *Ctx) any {
 	r := c.Rand("c18")
 	cs := &C18Case{Writer: []string{"mem", "big"}[r.Intn(2)]}
+	if r.Chance(1, 5) {
+		cs.Writer2 = []string{"mem", "big"}[r.Intn(2)]
+	}
 	maxT := 8
 	if c.Thorough() {
 		maxT = 32
@@ -612,7 +680,14 @@ func runC18(c *Ctx, body json.RawMessage) *Verdict {
 		return v.Harness("decode: %v", err)
 	}
 	v.CaseKey = hashJSON(&cs)
-	path := c.Path("out.updog")
+	kinds := []string{cs.Writer}
+	if cs.Writer2 != "" {
+		kinds = append(kinds, cs.Writer2) // two writer instances fed concurrently: task t uses writer t%2
+	}
+	paths := make([]string, len(kinds))
+	for k := range kinds {
+		paths[k] = c.Path(fmt.Sprintf("out-%d.updog", k))
+	}
 	type addOut struct {
 		id        uint32
 		err       error
@@ -631,38 +706,42 @@ func runC18(c *Ctx, body json.RawMessage) *Verdict {
 		total += len(rows)
 	}
 	var res *simrt.Result
-	var setupErr, flushErr error
+	var setupErr error
+	flushErr := make([]error, len(kinds))
 	simrt.SetMapSeed(c.Seed | 1)
 	c.Bubble(func() {
-		var w rowAdder
-		var flush func() error
-		switch cs.Writer {
-		case "big":
-			tdb, err := bbolt.Open(c.Path("temp.db"), 0o600, nil)
-			if err != nil {
-				setupErr = err
-				return
+		ws := make([]rowAdder, len(kinds))
+		flushes := make([]func() error, len(kinds))
+		for k, kind := range kinds {
+			switch kind {
+			case "big":
+				tdb, err := bbolt.Open(c.Path(fmt.Sprintf("temp-%d.db", k)), 0o600, nil)
+				if err != nil {
+					setupErr = err
+					return
+				}
+				defer tdb.Close()
+				db, err := bbolt.Open(paths[k], 0o644, nil)
+				if err != nil {
+					setupErr = err
+					return
+				}
+				defer db.Close()
+				bw, err := updog.NewBigIndexWriter(db, tdb)
+				if err != nil {
+					setupErr = err
+					return
+				}
+				ws[k], flushes[k] = bw, bw.Flush
+			default:
+				mw := updog.NewIndexWriter(paths[k])
+				ws[k], flushes[k] = mw, mw.Flush
 			}
-			defer tdb.Close()
-			db, err := bbolt.Open(path, 0o644, nil)
-			if err != nil {
-				setupErr = err
-				return
-			}
-			defer db.Close()
-			bw, err := updog.NewBigIndexWriter(db, tdb)
-			if err != nil {
-				setupErr = err
-				return
-			}
-			w, flush = bw, bw.Flush
-		default:
-			mw := updog.NewIndexWriter(path)
-			w, flush = mw, mw.Flush
 		}
 		fns := make([]func(), len(cs.Tasks))
 		for t := range cs.Tasks {
 			t := t
+			w := ws[t%len(ws)]
 			fns[t] = func() {
 				for i := range cs.Tasks[t] {
 					o := &outs[t][i]
@@ -676,7 +755,9 @@ func runC18(c *Ctx, body json.RawMessage) *Verdict {
 		if res.Hang || res.Deadlock {
 			return
 		}
-		flushErr = flush()
+		for k := range flushes {
+			flushErr[k] = flushes[k]()
+		}
 	})
 	if setupErr != nil {
 		return v.Harness("setup: %v", setupErr)
@@ -685,10 +766,13 @@ func runC18(c *Ctx, body json.RawMessage) *Verdict {
 		return v.Harness("simulation did not run")
 	}
 	applySim(v, res)
-	v.StateKey = simrt.Hash3(simrt.HashStr(cs.Writer+cs.Sched.Strategy), uint64(len(cs.Tasks))<<20|uint64(total), uint64(res.Switches))
+	v.StateKey = simrt.Hash3(simrt.HashStr(cs.Writer+"+"+cs.Writer2+cs.Sched.Strategy), uint64(len(cs.Tasks))<<20|uint64(total), uint64(res.Switches))
 	v.NonTrivial = len(cs.Tasks) >= 2 && res.Switches >= 2
 	if total > 1000 {
 		v.Count("probe_crossed_1000_rows", 1)
+	}
+	if len(kinds) > 1 {
+		v.Count("probe_two_writer_instances", 1)
 	}
 	if res.Hang || res.Deadlock {
 		v.Fatal = true
@@ -702,90 +786,102 @@ func runC18(c *Ctx, body json.RawMessage) *Verdict {
 		call, ret uint64
 		row       Row
 	}
-	var evs []ev
-	for t := range cs.Tasks {
-		for i := range cs.Tasks[t] {
-			o := outs[t][i]
-			if o.panicky != "" {
-				return v.Violate("panic", "AddRow panicked: %s", o.panicky)
+	for k := range kinds {
+		var evs []ev
+		for t := range cs.Tasks {
+			if t%len(kinds) != k {
+				continue
 			}
-			if o.err != nil {
-				return v.Violate("addrow-error", "AddRow failed: %v", o.err)
-			}
-			evs = append(evs, ev{o.id, o.call, o.ret, cs.Tasks[t][i]})
-		}
-	}
-	sort.Slice(evs, func(i, j int) bool { return evs[i].id < evs[j].id })
-	for i, e := range evs {
-		if e.id != uint32(i) {
-			return v.Violate("ids", "returned ids are not exactly 0..%d: position %d holds id %d", total-1, i, e.id)
-		}
-	}
-	// fetch-and-increment linearizability: real-time order must be respected by the ids
-	var maxCall uint64
-	var maxCallID uint32
-	for _, e := range evs {
-		if maxCall > e.ret {
-			return v.Violate("id-order", "AddRow returning id %d completed (stamp %d) before the call returning the smaller id %d began (stamp %d)", e.id, e.ret, maxCallID, maxCall)
-		}
-		if e.call > maxCall {
-			maxCall, maxCallID = e.call, e.id
-		}
-	}
-	if flushErr != nil {
-		return v.Violate("flush-error", "Flush failed: %v", flushErr)
-	}
-	var ordered []Row
-	for _, e := range evs {
-		ordered = append(ordered, e.row)
-	}
-	ref := NewRefIndex(ordered)
-	idx, err := updog.OpenIndex(path)
-	if err != nil {
-		return v.Violate("open-error", "opening the flushed index failed: %v", err)
-	}
-	defer idx.Close()
-	if d := CompareSchema(ref.Schema(), idx.GetSchema()); d != "" {
-		return v.Violate("wrong-schema", "%s", d)
-	}
-	check := func(q *Query) string {
-		res, err := idx.Execute(q.ToUpdog())
-		return CompareResult(ref.Execute(q), res, err)
-	}
-	if d := check(&Query{Expr: Not(Eq("tag", "∅"))}); d != "" {
-		return v.Violate("row-universe", "count(^tag=∅): %s", d)
-	}
-	step := 1
-	if total > 300 {
-		step = total / 150
-	}
-	for i := 0; i < len(evs); i += step {
-		row := evs[i].row
-		if len(row) == 0 {
-			continue
-		}
-		tag := string(row[0][1])
-		if d := check(&Query{Expr: Eq("tag", tag)}); d != "" {
-			return v.Violate("row-lost-or-duplicated", "count(tag=%s): %s", tag, d)
-		}
-		for ki, kv := range row[1:] {
-			if ki > 12 && ki%25 != 0 {
-				continue // wide rows: a sample of their columns
-			}
-			if d := check(&Query{Expr: And(Eq("tag", tag), Eq(string(kv[0]), string(kv[1])))}); d != "" {
-				return v.Violate("row-mixed", "count(tag=%s & %s=%q): %s", tag, kv[0], kv[1], d)
+			for i := range cs.Tasks[t] {
+				o := outs[t][i]
+				if o.panicky != "" {
+					return v.Violate("panic", "AddRow panicked: %s", o.panicky)
+				}
+				if o.err != nil {
+					return v.Violate("addrow-error", "AddRow failed: %v", o.err)
+				}
+				evs = append(evs, ev{o.id, o.call, o.ret, cs.Tasks[t][i]})
 			}
 		}
-	}
-	for _, col := range []string{"a", "b", "c"} {
-		q := &Query{Expr: Not(Eq("tag", "∅")), GroupBy: []S{S(col)}}
-		if ref.Execute(q).Err {
-			continue
+		n := len(evs)
+		sort.Slice(evs, func(i, j int) bool { return evs[i].id < evs[j].id })
+		for i, e := range evs {
+			if e.id != uint32(i) {
+				return v.Violate("ids", "writer %d (%s): returned ids are not exactly 0..%d: position %d holds id %d", k, kinds[k], n-1, i, e.id)
+			}
 		}
-		if d := check(q); d != "" {
-			return v.Violate("wrong-groups", "group by %s: %s", col, d)
+		// fetch-and-increment linearizability: real-time order must be respected by the ids
+		var maxCall uint64
+		var maxCallID uint32
+		for _, e := range evs {
+			if maxCall > e.ret {
+				return v.Violate("id-order", "AddRow returning id %d completed (stamp %d) before the call returning the smaller id %d began (stamp %d)", e.id, e.ret, maxCallID, maxCall)
+			}
+			if e.call > maxCall {
+				maxCall, maxCallID = e.call, e.id
+			}
 		}
+		if flushErr[k] != nil {
+			return v.Violate("flush-error", "Flush failed: %v", flushErr[k])
+		}
+		var ordered []Row
+		for _, e := range evs {
+			ordered = append(ordered, e.row)
+		}
+		ref := NewRefIndex(ordered)
+		idx, err := updog.OpenIndex(paths[k])
+		if err != nil {
+			return v.Violate("open-error", "opening the flushed index failed: %v", err)
+		}
+		bad := func() *Verdict {
+			if d := CompareSchema(ref.Schema(), idx.GetSchema()); d != "" {
+				return v.Violate("wrong-schema", "%s", d)
+			}
+			check := func(q *Query) string {
+				res, err := idx.Execute(q.ToUpdog())
+				return CompareResult(ref.Execute(q), res, err)
+			}
+			if d := check(&Query{Expr: Not(Eq("tag", "∅"))}); d != "" {
+				return v.Violate("row-universe", "count(^tag=∅): %s", d)
+			}
+			step := 1
+			if n > 300 {
+				step = n / 150
+			}
+			for i := 0; i < len(evs); i += step {
+				row := evs[i].row
+				if len(row) == 0 {
+					continue
+				}
+				tag := string(row[0][1])
+				if d := check(&Query{Expr: Eq("tag", tag)}); d != "" {
+					return v.Violate("row-lost-or-duplicated", "writer %d (%s): count(tag=%s): %s", k, kinds[k], tag, d)
+				}
+				for ki, kv := range row[1:] {
+					if ki > 12 && ki%25 != 0 {
+						continue // wide rows: a sample of their columns
+					}
+					if d := check(&Query{Expr: And(Eq("tag", tag), Eq(string(kv[0]), string(kv[1])))}); d != "" {
+						return v.Violate("row-mixed", "count(tag=%s & %s=%q): %s", tag, kv[0], kv[1], d)
+					}
+				}
+			}
+			for _, col := range []string{"a", "b", "c"} {
+				q := &Query{Expr: Not(Eq("tag", "∅")), GroupBy: []S{S(col)}}
+				if ref.Execute(q).Err {
+					continue
+				}
+				if d := check(q); d != "" {
+					return v.Violate("wrong-groups", "group by %s: %s", col, d)
+				}
+			}
+			return nil
+		}()
+		idx.Close()
+		if bad != nil {
+			return bad
+		}
+		_ = os.Remove(paths[k])
 	}
-	_ = os.Remove(path)
 	return v
 }
